@@ -109,6 +109,27 @@ def run(tier):
                 cases.append((BB, T, missing, b"Content-Type: multipart/byteranges; boundary=" + longb + b"\r\n", response(BB, h, missing, longb), 16384, 0))
             for (hl, body) in rnd.sample(combos, 6):
                 cases.append((BB, T, missing, hl, body, rnd.choice([17, 16384]), 0))
+    # header lines of EXACT lengths around every power of two up to the transport's buffer size (and every length near 256,
+    # where fixed line buffers like to sit): as an ordinary header line before the Content-Type line, and as the
+    # Content-Type line itself (the boundary padded so that the whole line has that length, the exchange well formed)
+    hB_ = ref.parse_header(B); T_ = bytearray(B)
+    for c in (1, 3):
+        a, z = delta.extents(hB_)[c]; T_[a:z] = corpus.rand(rnd, z - a)
+    T_ = bytes(T_)
+    lens = sorted({2 ** k + d for k in range(4, 15) for d in (-2, -1, 0, 1, 2)} | set(range(250, 263)))
+    if tier == "quick":
+        lens = [x for x in lens if x <= 4100] 
+    ctpre = b"Content-Type: multipart/byteranges; boundary="
+    for Ln in lens:
+        if Ln <= 16384:
+            pad = b"X-Pad: " + b"p" * max(0, Ln - 9) + b"\r\n"
+            if len(pad) == Ln:
+                cases.append((B, T_, [1, 3], (pad, ctpre + b"zckBOUNDARYzck\r\n"), response(B, hB_, [1, 3], b"zckBOUNDARYzck"), 16384, 5))
+        nb = Ln - len(ctpre) - 2
+        if 1 <= nb <= 16000:
+            bnd = b"b" * nb
+            cases.append((B, T_, [1, 3], ctpre + bnd + b"\r\n", response(B, hB_, [1, 3], bnd), 16384, 5))
+    ck.extra["exact_header_line_lengths"] = len(lens)
     scripts = []; meta = []
     for i, (BB, T, missing, hl, body, frag, loglevel) in enumerate(cases):
         cid = "a%d" % i
@@ -117,8 +138,12 @@ def run(tier):
         L = sc.script().splitlines()[:-1]
         if loglevel != 5:
             L.insert(1, "loglevel %d" % loglevel)          # ZCK_LOG_DDEBUG: every log statement formats its arguments (stderr is discarded)
-        hp = os.path.join(wd, cid + ".hdr"); bp = os.path.join(wd, cid + ".body"); open(hp, "wb").write(hl); open(bp, "wb").write(body)
-        L += ["missing_range 1 0 -1", "dl_set_range 0 1", "header_cb 0 hex:%s" % b"HTTP/1.1 206 Partial Content\r\n".hex(), "header_cb 0 file:%s" % hp, "header_cb 0 hex:0d0a"]
+        hls = list(hl) if isinstance(hl, tuple) else [hl]; hl = hls[-1]
+        hp = os.path.join(wd, cid + ".hdr"); bp = os.path.join(wd, cid + ".body"); open(bp, "wb").write(body)
+        L += ["missing_range 1 0 -1", "dl_set_range 0 1", "header_cb 0 hex:%s" % b"HTTP/1.1 206 Partial Content\r\n".hex()]
+        for j_, one in enumerate(hls):
+            open(hp + str(j_), "wb").write(one); L.append("header_cb 0 file:%s" % (hp + str(j_)))
+        L += ["header_cb 0 hex:0d0a"]
         pos = 0
         while pos < len(body):
             n = min(frag, len(body) - pos); L.append("write_chunk_cb 0 file:%s:%d:%d" % (bp, pos, n)); pos += n
@@ -154,7 +179,7 @@ def run(tier):
         ck.case((hl[:60], hash(body), frag, tuple(missing)))
     ck.sample({"header_line": cases[3][3].decode("latin1"), "body_prefix": cases[3][4][:120].decode("latin1"), "fragment": cases[3][5]})
     ck.sample({"header_line": cases[-1][3][:80].decode("latin1"), "body_prefix": cases[-1][4][:120].decode("latin1"), "fragment": cases[-1][5]})
-    sb = {m[0]: (scripts[i], "header %r body %r.. frag %d" % (m[3][:50], m[4][:40], m[5]), delta.replay_files(m[1]) + [os.path.join(wd, m[0] + ".hdr"), os.path.join(wd, m[0] + ".body")]) for i, m in enumerate(meta)}
+    sb = {m[0]: (scripts[i], "header %r body %r.. frag %d" % (m[3][:50], m[4][:40], m[5]), delta.replay_files(m[1]) + [os.path.join(wd, m[0] + ".hdr0"), os.path.join(wd, m[0] + ".hdr1"), os.path.join(wd, m[0] + ".body")]) for i, m in enumerate(meta)}
     validate_segments(ck, "C17", trace, owner, wd, scripts_by=sb, module="Trace_Delta", cfg="Trace_Delta.cfg", start_ops=("begin",))
     if not ck.violations:
         neg = [{"op": "begin"}, {"op": "start", "n": 2, "disk": [True, False]}, {"op": "scan", "vec": [1, -1], "disk": [True, False], "sized": [False, True], "ret": -1},
